@@ -53,6 +53,8 @@ MERLIN = "merlin/keccak transcripts are an arbitrary function in the theorems an
 
 PROPS = {
     "C01": dict(module="ZkElGamal.Props.C01", ns="Zk.Props.C01", trusted=[DALEK, MERLIN], assumptions=[ROM, DALEK, MERLIN]),
+    "C02": dict(module="ZkElGamal.Props.C02", ns="Zk.Props.C02", trusted=[DALEK, MERLIN], assumptions=[ROM, DALEK, MERLIN]),
+    "C03": dict(module="ZkElGamal.Props.C03", ns="Zk.Props.C03", trusted=[DALEK, MERLIN], assumptions=[ROM, DALEK, MERLIN]),
     "C15": dict(module="ZkElGamal.Props.C15", ns="Zk.Props.C15", extra=[consts_check], exhaustive=True,
                 assumptions=["solana_instruction::Instruction / AccountMeta and bytemuck::bytes_of are external (modelled)"]),
     "C16": dict(module="ZkElGamal.Props.C16", ns="Zk.Props.C16", extra=[consts_check], exhaustive=True,
@@ -74,6 +76,17 @@ MANIFEST_TEXT = {
              "failing equations survive for at most k-1 batching weights (polynomial root bound, any cancellation pattern); two accepting transcripts yield the witness. "
              "The same Lean definitions run as `zkmodel` and must agree with the Rust verifier on honest, one-relation-false, all residual vectors, zero-nonce, identity-subset, z+k*l and special-value inputs; "
              "the model also acts as adversarial prover whose proofs the Rust verifier must judge identically.",
+        note=SIGMA_NOTE),
+    "C02": dict(
+        technique="Lean 4 proof (verify_ok_iff for the four layouts, batching-root bound, extractors for every handle position, lo/hi combination) + differential correspondence with adversarial model-prover",
+        text="For 2/3 handles, plain and batched: verification of raw bytes succeeds iff decode, identity policy with the auditor exception (last key / last masking commitment may be the identity), and the batched commitment + per-handle equations (on lo + t*hi for the batched variants). "
+             "Extractors give C = xG + rH and D_i = r P_i for every handle at once; two values of t force lo and hi to be individually well formed. "
+             "Correspondence: defect on each single point, cancelling defects between handles / between lo and hi, residual vectors, identity auditor / non-auditor keys, zero opening/amount, non-canonical encodings.",
+        note=SIGMA_NOTE),
+    "C03": dict(
+        technique="Lean 4 proof (verify_ok_iff, batching-root bound, OR special-soundness extractor) + differential correspondence with either branch simulated by the model prover",
+        text="Verification of the 360 bytes succeeds iff decode, no identity among three commitments and three masking commitments, and E_max + w E_delta + w^2 E_claimed = 0 with c_eq = c - c_max; "
+             "two accepting transcripts yield (C_max opens to max_value) or (C_delta and C_claimed open to the same value). Correspondence: both branches real/simulated on true and false statements, residual vectors, max_value classes, perturbed sub-challenge, non-canonical scalars, identity commitments.",
         note=SIGMA_NOTE),
     "C15": dict(
         technique="Lean 4 proof (encode/decode laws for all inputs; `decide +kernel` over the enum/struct tables regenerated from source) + differential correspondence with the SDK encoders/decoders",
